@@ -34,11 +34,25 @@ PROPS = {
     },
 }
 
+PROPS['C18'] = {
+    'kani': ['kint'], 'engine': 'kani',
+    'title': 'I54/U53 hold exactly the JS-safe integers',
+    'technique': 'Kani function contracts (proof_for_contract / stub_verified) + loop-free full-domain harnesses on a verbatim copy of lib/src/integer.rs',
+    'level_text': 'For all 2^64 values of u64 / i64 (no sampling, no bound): TryFrom accepts exactly [0, 2^53-1] resp. [-(2^53-1), 2^53-1] '
+                  '(range written from the JS definition, not from the constants in the file), accepted values convert back unchanged, survive '
+                  'an IEEE-754 double, narrow/widen conversions never truncate, ordering and equality agree with the wide integers, '
+                  'usize_from_u53_saturated is min(v, usize::MAX).',
+    'level_note': 'serde leg assumed from serde_derive semantics of #[serde(try_from)] (attribute presence checked each run); serde_json parser trusted; '
+                  'CBMC bit-precise semantics trusted.',
+    'design_ref': 'DESIGN.md section 5 C18',
+}
+
 NOT_APPLICABLE = {k: NA_TEXT for k in ['C01', 'C02', 'C04', 'C05', 'C08', 'C09', 'C10', 'C12', 'C14', 'C15', 'C19']}
 NOT_APPLICABLE.update({k: 'unit not built yet in this round (see DESIGN.md build order)' for k in
-                       ['C03', 'C06', 'C07', 'C13', 'C16', 'C17', 'C18', 'C20']})
+                       ['C03', 'C06', 'C07', 'C13', 'C16', 'C17', 'C20']})
 
 ALL_UNITS = ['topo']
+ALL_KANI = ['kint']
 
 
 def rebaseline(work):
@@ -59,6 +73,9 @@ def rebaseline(work):
         led[name] = {'verified': r['verified'], 'functions': sorted(k for k, v in r['functions'].items() if v['success']),
                      'assumptions': vunit.scan_assumptions(text)}
         print('rebaseline %s: verified=%d' % (name, r['verified']))
+    for name in ALL_KANI:
+        importlib.import_module(name).rebaseline()
+        print('rebaseline %s: pinned' % name)
     os.makedirs(os.path.join(VERIF, 'baseline'), exist_ok=True)
     with open(os.path.join(VERIF, 'baseline', 'ledger.json'), 'w') as f:
         json.dump(led, f, indent=1, sort_keys=True)
@@ -101,19 +118,23 @@ def run_native(exe, args, timeout=120):
     return {'found': False, 'searched': pr.stdout.strip()[-300:]}
 
 
-WITNESS_KIND = {'topo': 'topo'}
+def _native_for(name, workdir):
+    mod = importlib.import_module(name)
+    if hasattr(mod, 'native'):
+        return mod.native(workdir)
+    if hasattr(mod, 'native_source'):
+        return native_harness(name, workdir)
+    return None, 'no native harness for unit %s' % name
 
 
 def witness(pid, unit_res, workdir, seed):
     """best-effort search for a concrete failing input on the REAL code (never decides)"""
-    kind = WITNESS_KIND.get(unit_res['unit'])
-    if not kind:
-        return {'found': False, 'note': 'no witness search for this unit'}
-    exe, err = native_harness(kind, workdir)
+    name = unit_res['unit']
+    exe, err = _native_for(name, workdir)
     if not exe:
-        return {'found': False, 'error': 'native harness does not compile: ' + err[-500:]}
+        return {'found': False, 'error': 'no native harness: ' + err[-500:]}
     w = run_native(exe, ['search'])
-    w['kind'] = kind
+    w['kind'] = name
     return w
 
 
@@ -131,17 +152,20 @@ def replay(pid, path, work):
         return 1
     os.makedirs(work, exist_ok=True)
     import tempfile
+    import shutil
     wd = tempfile.mkdtemp(prefix='replay-', dir=work)
     try:
-        exe, err = native_harness(wit['kind'], wd)
+        exe, err = _native_for(wit['kind'], wd)
         if not exe:
             print('cannot build replay harness: ' + err)
             return 2
-        pr = subprocess.run([exe, 'check', json.dumps(wit['input'])], capture_output=True, text=True, timeout=60)
+        mod = importlib.import_module(wit['kind'])
+        inp = wit['input'].get('input', wit['input'])
+        args = mod.replay_args(inp) if hasattr(mod, 'replay_args') else [json.dumps(inp)]
+        pr = subprocess.run([exe, 'check'] + args, capture_output=True, text=True, timeout=60)
         print(pr.stdout.strip())
         return 1 if 'WITNESS ' in pr.stdout else 0
     finally:
-        import shutil
         shutil.rmtree(wd, ignore_errors=True)
 
 
